@@ -128,7 +128,8 @@ def S3(vc):
 
 
 # =============================================================================================== U2
-@harness('U2', targets='kopf._core.reactor.running.startup_cleanup_activities', props=['C20'],
+@harness('U2', targets='kopf._core.reactor.running.startup_cleanup_activities', props=['C20', 'C09', 'C11', 'C13', 'C03'],
+         prop_clauses={'C09': ['startup_then_started_then_ready'], 'C11': ['errors_propagate'], 'C13': ['cleanup_after_all_other_root_tasks', 'vault_closed_after_cleanup'], 'C03': ['startup_then_started_then_ready']},
          clauses=['startup_then_started_then_ready', 'failed_startup_releases_nothing', 'cleanup_after_all_other_root_tasks',
                   'core_tasks_always_stopped', 'errors_propagate', 'vault_closed_after_cleanup'],
          canaries=['canary.always_ready', 'canary.always_cleans_up'],
@@ -329,12 +330,16 @@ REQUIRED = {'authenticator': 'C12', 'poster': 'C20', 'condition_chain': 'C18', '
             'resource_observer': 'C19', 'namespace_observer': 'C19'}
 
 
-@harness('U1', targets='kopf._core.reactor.running.spawn_tasks', props=['C20', 'C12', 'C13', 'C17', 'C18', 'C19'],
+@harness('U1', targets='kopf._core.reactor.running.spawn_tasks', props=['C20', 'C12', 'C13', 'C17', 'C18', 'C19', 'C09'],
          clauses=U1_OLD + ['operator_tasks_present', 'collaborators_given_or_default', 'context_set_before_tasks',
                            'indices_prepared_before_startup', 'peering_settings_from_arguments', 'scope_reaches_observer',
                            'signals_hooked_in_main_thread_only'],
+         # C09: the daemon killer must exist exactly once, as a tracked root task, over the same memories as the processor --
+         # else daemons are not stopped on pause/exit, or swept with a plain cancel instead of flag -> backoff -> cancel -> timeout
          clause_props={**{c: ['C20'] for c in U1_OLD},
-                       'operator_tasks_present': ['C20', 'C12', 'C18', 'C19'], 'collaborators_given_or_default': ['C20'],
+                       'every_coroutine_becomes_one_task': ['C20', 'C09'], 'tasks_are_tracked': ['C20', 'C09'],
+                       'lifecycle_tasks_present': ['C20', 'C09'],
+                       'operator_tasks_present': ['C20', 'C12', 'C18', 'C19'], 'collaborators_given_or_default': ['C20', 'C09'],
                        'context_set_before_tasks': ['C20', 'C12'], 'indices_prepared_before_startup': ['C20', 'C17'],
                        'peering_settings_from_arguments': ['C20', 'C13'], 'scope_reaches_observer': ['C20', 'C13', 'C19'],
                        'signals_hooked_in_main_thread_only': ['C20']},
@@ -672,7 +677,8 @@ def same_map(a, b):
     return set(a) == set(b) and all(a[k] is b[k] for k in a)
 
 
-@harness('U2a', targets='kopf._core.engines.activities.run_activity', props=['C20', 'C11'],
+@harness('U2a', targets='kopf._core.engines.activities.run_activity', props=['C20', 'C11', 'C12'],
+         prop_clauses={'C12': ['handlers_of_the_activity', 'state_threaded', 'outcomes_accumulate_latest', 'error_iff_final_outcome_failed', 'results_of_successes']},
          clauses=['handlers_of_the_activity', 'state_threaded', 'outcomes_accumulate_latest', 'sleeps_the_state_delay',
                   'error_iff_final_outcome_failed', 'results_of_successes'],
          canaries=['canary.never_raises', 'canary.always_raises'],
@@ -765,7 +771,8 @@ def U2a(vc):
 
 
 # =============================================================================================== U3
-@harness('U3', targets='kopf._core.reactor.running.run_tasks', props=['C20'],
+@harness('U3', targets='kopf._core.reactor.running.run_tasks', props=['C20', 'C09', 'C13', 'C01'],
+         prop_clauses={'C09': ['stops_all_remaining_roots', 'hung_tasks_swept', 'cancellation_stops_everything'], 'C13': ['cancellation_stops_everything'], 'C01': ['stops_all_remaining_roots', 'hung_tasks_swept']},
          clauses=['stops_all_remaining_roots', 'hung_tasks_swept', 'reraises_failure', 'cancellation_stops_everything'],
          canaries=['canary.never_raises', 'canary.nothing_pending'],
          trusted=['aiotasks.wait/stop/reraise/all_tasks by contracts S4w/S4/S4r (all_tasks: every task of the loop but the current and the ignored ones)'])
@@ -890,7 +897,8 @@ class GhostTask:
         return f'<task {self.name}>'
 
 
-@harness('S4', targets='kopf._cogs.aiokits.aiotasks.stop', props=['C20', 'C19', 'C09'],
+@harness('S4', targets='kopf._cogs.aiokits.aiotasks.stop', props=['C20', 'C19', 'C09', 'C13', 'C01'],
+         prop_clauses={'C13': ['cancels_every_task', 'waits_until_none_pending'], 'C01': ['waits_until_none_pending', 'partition_kept']},
          clauses=['cancels_every_task', 'waits_until_none_pending', 'partition_kept', 'cancellation_propagates', 'empty_is_noop'],
          canaries=['canary.single_round'],
          trusted=['aiotasks.wait by contract S4w: returns a partition (done, pending) of the given tasks'],
